@@ -397,6 +397,48 @@ func c04main(c *Ctx) {
 			if c.R.WantSample() && len(cs.kvs) > 1 {
 				c.R.Sample(idx, desc, map[string]any{"payload": string(payload)})
 			}
+			follow := func(what string, fc c04case, emit func(*slog.Entry)) bool {
+				fl := newRoot(fc.name, FJSON, w, slog.AlwaysLevel)
+				evs := capture(log, func() { emit(fl) })
+				if len(evs) != 1 || evs[0].Kind != mon.EvWrite {
+					c.R.Violation(idx, "one-write", "C04/one-write/"+what, fmt.Sprintf("expected exactly one Write, saw %s", fmtEvents(evs)), desc)
+					return false
+				}
+				if vs := c04check(evs[0].Data, fc); len(vs) > 0 {
+					c.R.Violation(idx, vs[0].clause, "C04/"+vs[0].clause+"/"+what, vs[0].detail+"\npayload: "+q(clip(string(evs[0].Data), 1200)), describe(FJSON, fc.name, fc.msg, fc.lvl, fc.caller, fc.kvs))
+					return false
+				}
+				return true
+			}
+			// ONE group object with two owners in one record: under two parent groups, and at the top level as well
+			if idx%5 == 2 && !viaHandler {
+				for _, kv := range cs.kvs {
+					if kv.Val.Kind != "group" || kv.Val.Go != nil || kv.Key == "" || len(match.Flatten("", []gen.KV{kv})) == 0 {
+						continue
+					}
+					peer := kv.Attr()
+					fc := c04case{name: cs.name, msg: "one group object, two owners", lvl: slog.InfoLevel, caller: slog.GetFlags()&slog.Lcaller != 0,
+						kvs: []gen.KV{{Key: "dst~", Val: gen.V{Kind: "group", Items: []gen.KV{kv}}}, kv, {Key: "src~", Val: gen.V{Kind: "group", Items: []gen.KV{kv}}}}}
+					if !follow("one-group-object-with-two-owners", fc, func(l *slog.Entry) {
+						l.Info(fc.msg, slog.Group("src~", peer), peer, slog.Group("dst~", peer))
+					}) {
+						return
+					}
+					c.R.Add("records_with_one_group_object_under_two_parents", 1)
+					break
+				}
+			}
+			// a blank message at a severity of the application that is GATED like Always (only Print / Println make a blank
+			// line of a blank message)
+			if idx%9 == 4 && !c.Testing && !viaHandler {
+				fc := c04case{name: cs.name, msg: gen.Pick(r, []string{"", " ", "\t", " \n"}), lvl: lvlLikeAlways, caller: slog.GetFlags()&slog.Lcaller != 0, kvs: cs.kvs}
+				if cs.dups == 0 && !cs.bundle {
+					if !follow("blank-message-at-a-severity-gated-like-Always", fc, func(l *slog.Entry) { l.LogAttrs(bg, fc.lvl, fc.msg, pairsFirst(fc.kvs)...) }) {
+						return
+					}
+					c.R.Add("blank_messages_at_a_severity_gated_like_Always", 1)
+				}
+			}
 			return
 		}
 		// attribute the failure: re-log every part alone
